@@ -4,7 +4,7 @@ from __future__ import annotations
 
 import ast
 
-from ..loader import AnalysisError, body_nodoc, dotted, norm, strip_cast, walk_no_nested
+from ..loader import AnalysisError, body_nodoc, dotted, norm, strip_cast, walk_no_nested, parent, enclosing
 
 METHOD_WRITES = {"add_transfer_syntax": "transfer_syntax"}
 
@@ -80,6 +80,68 @@ def check_primitive_pairs(repo, rep, pm):
             if back:
                 rep.check(x in back, "primitive-pairs", fq, f"{y}: from -> self.{x}, to <- self.{sorted(back)}", f"parameter {y} is stored in self.{x} but restored from self.{sorted(back)}: cross-wired", mod=mod, node=tp)
     rep.floor("from/to_primitive pairs", n, 15)
+    # a moved parameter is moved as it is: no value-level default (`x or y`, `a if c else b`) may
+    # stand between the primitive and the PDU field - for some legal value the other operand would be
+    # sent / restored instead. No conversion uses one today (0 expected; self-test keeps a positive).
+    m_n = 0
+    for name, ci in pm.classes.items():
+        mod = ci.mod
+        fq = f"{mod.name.replace('pynetdicom.', '')}.{name}"
+        for meth in ("from_primitive", "to_primitive"):
+            fn = ci.methods.get(meth)
+            if fn is None:
+                continue
+            m_n += 1
+            for node in walk_no_nested(fn):
+                if isinstance(node, (ast.BoolOp, ast.IfExp)) and not isinstance(getattr(node, "_p", None), (ast.If, ast.While)):
+                    par = parent(node)
+                    if isinstance(par, (ast.If, ast.While, ast.Assert)) and par.test is node:
+                        continue
+                    if isinstance(par, (ast.BoolOp, ast.UnaryOp)):
+                        continue
+                    if any(isinstance(x, ast.Attribute) and isinstance(x.ctx, ast.Load) for x in ast.walk(node)):
+                        rep.fail("primitive-pairs", f"{fq}.{meth}", enclosing(node, (ast.stmt,)) or node, f"`{norm(node)}`: a parameter moved between primitive and PDU goes through a value-level default; for some legal value (a non-default name, 0, b'', False) the other operand is transmitted / restored instead of the parameter", mod=mod, node=node)
+    rep.floor("conversion methods scanned for value-level defaults", m_n, 30)
+    # statement-level spelling of the same thing: an `if` that decides whether a parameter is moved.
+    # Accepted guards (all that exist today, read): isinstance dispatch over item kinds, `<x> is [not] None`
+    # (absent parameter), and the two frozen sites below.
+    GUARDS = {
+        ("pdu", "A_ABORT_RQ.to_primitive", "self.source == 2"): "source 2 = provider: A-P-ABORT primitive instead of A-ABORT (PS3.8 9.3.8)",
+        ("pdu_items", "PresentationContextItemAC.to_primitive", "self.transfer_syntax"): "rejected contexts legally carry no (or an ignorable) transfer syntax",
+    }
+    g_n = 0
+    for name, ci in pm.classes.items():
+        mod = ci.mod
+        short = mod.name.replace("pynetdicom.", "")
+        for meth in ("from_primitive", "to_primitive"):
+            fn = ci.methods.get(meth)
+            if fn is None:
+                continue
+            for node in walk_no_nested(fn):
+                if not isinstance(node, ast.If):
+                    continue
+                moves = any((isinstance(x, (ast.Assign, ast.AugAssign)) and isinstance((x.targets[0] if isinstance(x, ast.Assign) else x.target), (ast.Attribute, ast.Subscript))) or (isinstance(x, ast.Call) and isinstance(x.func, ast.Attribute) and x.func.attr in ("append", "extend", "add_transfer_syntax", "insert")) for b in (node.body, node.orelse) for st in b for x in ast.walk(st))
+                if not moves:
+                    continue
+                g_n += 1
+                t = node.test
+                atoms = t.values if isinstance(t, ast.BoolOp) else [t]
+                def accepted(a):
+                    if isinstance(a, ast.UnaryOp) and isinstance(a.op, ast.Not):
+                        a = a.operand
+                    if isinstance(a, ast.Call) and norm(a.func) == "isinstance":
+                        return True
+                    if isinstance(a, ast.Compare) and len(a.ops) == 1 and isinstance(a.ops[0], (ast.Is, ast.IsNot)) and norm(a.comparators[0]) == "None":
+                        return True
+                    return False
+                key = (short, f"{name}.{meth}", norm(t))
+                if all(accepted(a) for a in atoms):
+                    rep.ok("primitive-pairs", f"{short}.{name}.{meth} :: guard `{norm(t)}`", "item-kind dispatch / absent-parameter test")
+                elif key in GUARDS:
+                    rep.ok("primitive-pairs", f"{short}.{name}.{meth} :: guard `{norm(t)}`", GUARDS[key])
+                else:
+                    rep.fail("primitive-pairs", f"{short}.{name}.{meth}", node, f"`if {norm(t)}` decides whether / which value of a parameter is moved between primitive and PDU; the only guards a conversion may use are item-kind dispatch and `is None` (absent) tests - any other makes some legal value of the parameter disappear or be replaced", mod=mod, node=node)
+    rep.floor("guards in conversion methods", g_n, 10)
 
 
 # ---- one object per element ---------------------------------------------------------------------
